@@ -10,3 +10,74 @@ Theorem C07_pinned_refuted :
   /\ omap t_id (hk_cached (hs_hook (hrun hcfg_fixed strand_history))) = Some "t2".
 Proof. exact pinned_hook_goes_stale. Qed.
 Print Assumptions C07_pinned_refuted.
+
+(* ---- the invariant over all histories (Proofs/HookProofs.v), repaired hook ---- *)
+From GK.Proofs Require Import HookProofs.
+
+(* one operation through the wrapper — AddTask, UpdateById, Cancel, MarkAsDispatched, StartTimer, StopTimer,
+   time advance, consume-the-fire-and-dispatch-the-head, each with or without a failing look-up inside the
+   re-arming — preserves J: timer discipline; stopped => idle; an error => idle and reported; otherwise the
+   cache names the task GetNext would return (id, time, priority) and a wake-up is pending or armed NOT LATER than
+   that task's time. Side conditions: the clock does not go backwards, ids are fresh. *)
+Theorem C07_invariant_step : forall now s o,
+  RepoProofs.wf_repo (hs_repo s) -> J now s -> hop_ok now s o -> J (hop_time now o) (fst (hstep hcfg_fixed s o)).
+Proof. exact hstep_J. Qed.
+Print Assumptions C07_invariant_step.
+
+Theorem C07_invariant_every_history : forall now0 ops,
+  hops_ok now0 hs_init ops -> J (last_time now0 ops) (hrun ops).
+Proof. exact hrun_J. Qed.
+Print Assumptions C07_invariant_every_history.
+
+(* what J says, spelled out *)
+Theorem C07_invariant_meaning : forall now s, J now s ->
+  (tm_armed (hs_timer s) <> None -> tm_pending (hs_timer s) = false) /\
+  (hk_started (hs_hook s) = false -> hs_timer s = timer_idle /\ hk_cached (hs_hook s) = None) /\
+  (hk_started (hs_hook s) = true -> hk_err (hs_hook s) = false ->
+   match get_next (hs_repo s) with
+   | Some h => exists c, hk_cached (hs_hook s) = Some c /\ t_id c = t_id h /\ t_sched c = t_sched h /\ t_prio c = t_prio h
+   | None => hk_cached (hs_hook s) = None
+   end) /\
+  (hk_started (hs_hook s) = true -> hk_err (hs_hook s) = false ->
+   forall h, get_next (hs_repo s) = Some h ->
+   tm_pending (hs_timer s) = true \/ (exists d, tm_armed (hs_timer s) = Some d /\ d <= inst (t_sched h))) /\
+  (hk_err (hs_hook s) = true -> hs_timer s = timer_idle /\ hk_cached (hs_hook s) = None) /\
+  Forall (fun u => inst (t_created u) <= inst (norm now)) (hs_repo s).
+Proof. exact J_parts. Qed.
+Print Assumptions C07_invariant_meaning.
+
+(* executable form: the predicate the check evaluates on the real wrapper holds at every step of every history *)
+Theorem C07_predicate_every_step : forall now0 ops,
+  hops_ok now0 hs_init ops -> c07_hist false (model_hhist hs_init ops) 0 = None.
+Proof. exact model_c07_hist_init. Qed.
+Print Assumptions C07_predicate_every_step.
+
+(* a failure to look up the next task while re-arming is reported, not swallowed; and it stays reported *)
+Theorem C07_rearm_error_reported : forall s o,
+  timer_ok (hs_timer s) -> hop_fault o = true ->
+  hk_started (hs_hook s) = true \/ (exists n, o = HStart true n) ->
+  fault_outcome s (fst (hstep hcfg_fixed s o)).
+Proof. exact fault_reported. Qed.
+Print Assumptions C07_rearm_error_reported.
+Theorem C07_error_sticky : forall nw s o,
+  J nw s -> hk_started (hs_hook s) = true -> hk_err (hs_hook s) = true ->
+  (hk_err (hs_hook (fst (hstep hcfg_fixed s o))) = true /\ hs_timer (fst (hstep hcfg_fixed s o)) = timer_idle)
+  \/ (hop_fault o = false /\ hk_err (hs_hook (fst (hstep hcfg_fixed s o))) = false).
+Proof. exact err_sticky. Qed.
+Print Assumptions C07_error_sticky.
+
+(* after StopTimer nothing fires until StartTimer *)
+Theorem C07_stopped_silent : forall now s n,
+  J now s -> hk_started (hs_hook s) = false ->
+  hs_timer s = timer_idle /\ hs_timer (fst (hstep hcfg_fixed s (HAdvance n))) = timer_idle.
+Proof. exact stopped_quiet. Qed.
+Print Assumptions C07_stopped_silent.
+
+(* the two defects that were repaired, as refutations of the corresponding model variants *)
+Theorem C07_pinned_violates : c07_ok (started_of pinned_hist) (hobs_of (hrun_cfg hcfg_pinned pinned_hist)) = false.
+Proof. exact pinned_c07_violated. Qed.
+Print Assumptions C07_pinned_violates.
+Theorem C07_without_normalization_violates :
+  c07_ok (started_of submilli_hist) (hobs_of (hrun_cfg hcfg_nonorm submilli_hist)) = false.
+Proof. exact nonorm_submilli_c07_violated. Qed.
+Print Assumptions C07_without_normalization_violates.
